@@ -22,6 +22,8 @@ func main() {
 		os.Exit(cmdRun(os.Args[2:]))
 	case "check":
 		os.Exit(cmdCheck(os.Args[2:]))
+	case "selftest":
+		os.Exit(cmdSelftest(os.Args[2:]))
 	default:
 		fmt.Fprintln(os.Stderr, "unknown command", os.Args[1])
 		os.Exit(2)
@@ -143,4 +145,17 @@ func printResult(r *sym.HarnessResult) {
 	fmt.Printf("   reach: %v missing: %v\n", reached, missing)
 }
 
-func cmdCheck(args []string) int { return 2 }
+func cmdSelftest(args []string) int {
+	t0 := time.Now()
+	total := 0
+	for i, k := range []string{"z3", "cvc5"} {
+		n, err := sym.SelfTestRewriter(700, int64(i+1), k)
+		if err != nil {
+			fmt.Println("SELFTEST FAILED:", err)
+			return 1
+		}
+		total += n
+	}
+	fmt.Printf("selftest: term rewriter equivalent to raw terms on %d solver-checked random DAGs (z3, cvc5), evaluator agrees; %.1fs\n", total, time.Since(t0).Seconds())
+	return 0
+}
